@@ -32,8 +32,13 @@ var (
 // SetPoolPoison switches overwriting of recycled buffers on or off.
 func SetPoolPoison(on bool) { poolPoison.Store(on) }
 
-// SetPoolEvents switches reuse / hand-off accounting on or off.
+// SetPoolEvents switches reuse / hand-off accounting (pools and loader) on or off.
 func SetPoolEvents(on bool) { poolEvents.Store(on) }
+
+// EventsOn tells the hooks whether accounting is switched on; when it is off
+// they must not touch shared state (that would order goroutines for the race
+// detector).
+func EventsOn() bool { return poolEvents.Load() }
 
 // SetPoolYield makes Get/Put call runtime.Gosched with the given probability
 // (parts per million), from a deterministic counter-based stream.
@@ -61,14 +66,20 @@ func maybeYield() {
 
 // PoolGet is called by BufferPool.Get before a buffer is handed out.
 func PoolGet() {
-	PoolGets.Add(1)
+	if poolEvents.Load() {
+		// counted only on request: an unconditional atomic add would order the
+		// goroutines for the race detector and could hide races
+		PoolGets.Add(1)
+	}
 	maybeYield()
 }
 
 // PoolPut is called by BufferPool.Put after the buffer has been reset and
 // before it goes back into the pool.
 func PoolPut(b *bytes.Buffer) {
-	PoolPuts.Add(1)
+	if poolEvents.Load() {
+		PoolPuts.Add(1)
+	}
 	if poolPoison.Load() {
 		raw := b.Bytes()
 		raw = raw[:cap(raw)]
